@@ -39,7 +39,7 @@ def varOKj (var : XmlVar) : Bool :=
 
 /-- per class: every var is in the fragment, the keys under which the encoder emits the
 fields are pairwise distinct and are not confused with any other var's local name or wrapper,
-no key is `qname` (the marker of the two generic key sets), and vars and dataclass fields
+no key is `qname` or `children` (the markers of the two generic key sets), and vars and dataclass fields
 correspond -/
 def classOKj (ci : ClassInfo) (m : XmlMeta) : Bool :=
   let vars := allVars m
@@ -48,6 +48,7 @@ def classOKj (ci : ClassInfo) (m : XmlMeta) : Bool :=
   && vars.all (fun a => vars.all (fun b =>
       (b.localName != keyOf a.toVarCore && wrapperName b.toVarCore != some (keyOf a.toVarCore)) || decide (b = a)))
   && !(vars.map (fun v => keyOf v.toVarCore)).contains kQName
+  && !(vars.map (fun v => keyOf v.toVarCore)).contains kChildren
   && decide ((vars.map (·.name)).Nodup)
   && decide ((ci.fields.map (·.name)).Nodup)
   && ci.fields.all (fun f => vars.any (fun v => v.name == f.name && v.init == f.init))
